@@ -26,3 +26,28 @@ func newContinueResult(target string) result {
 func newBreakResult(target string) result {
 	return result{kind: resultBreak, value: emptyValue, target: target}
 }
+
+// withCompletionValue attaches the completion value accumulated so far to a
+// break or continue result which does not carry one yet (ES5 12.1: the value
+// of a statement list survives an abrupt completion).
+func (v Value) withCompletionValue(accumulated Value) Value {
+	res := v.value.(result)
+	if res.kind == resultReturn || !res.value.isEmpty() || accumulated.isEmpty() {
+		return v
+	}
+	res.value = accumulated
+	return toValue(res)
+}
+
+// completionValue is the completion value carried by a break or continue result.
+func (v Value) completionValue() Value {
+	return v.value.(result).value
+}
+
+// completionValueOr is completionValue, or fallback when the result carries none.
+func (v Value) completionValueOr(fallback Value) Value {
+	if value := v.value.(result).value; !value.isEmpty() {
+		return value
+	}
+	return fallback
+}
